@@ -22,11 +22,15 @@
 (* own notification (seeded change C03-6).  WithDeletes = TRUE shows why    *)
 (* the concurrent rounds of the driver carry no deletes: a delete entry may *)
 (* be taken after the leaf has been created again - the design gives two    *)
-(* writers of one target no defined outcome there.                          *)
+(* writers of one target no defined outcome there.  WithSuppression = TRUE  *)
+(* (values repeat, event-driven emulation on) shows the same for            *)
+(* suppression: the test compares against the value seen in Look, and a     *)
+(* write landing on a leaf changed in between is withheld although it       *)
+(* changes the leaf.                                                        *)
 (***************************************************************************)
 EXTENDS Naturals, Sequences, FiniteSets, TLC
 
-CONSTANTS Writers, Paths, MaxTs, WithDeletes, Mutant
+CONSTANTS Writers, Paths, MaxTs, WithDeletes, WithSuppression, Mutant
 
 VARIABLES tree,      \* path |-> leaf id, 0 = no leaf
           leafval,   \* leaf id |-> [ts, v]
@@ -35,11 +39,13 @@ VARIABLES tree,      \* path |-> leaf id, 0 = no leaf
           pc,        \* writer |-> "look" | "write" | "add" | "fetch" | "feed" | "feeddel" | "done"
           handle,    \* writer |-> leaf id it holds (0 = none)
           created,   \* writer |-> it created its leaf
-          feed       \* entries in the order taken: [k |-> "upd", p, ts, v] / [k |-> "del", p]
-vars == <<tree, leafval, nleaf, job, pc, handle, created, feed>>
+          feed,      \* entries in the order taken: [k |-> "upd", p, ts, v] / [k |-> "del", p]
+          oldv       \* writer |-> the value it saw in Look (event-driven test compares against it)
+vars == <<tree, leafval, nleaf, job, pc, handle, created, feed, oldv>>
 
 Ids == 1..(Cardinality(Paths) + Cardinality(Writers))
-Jobs == [k : {"upd"}, p : Paths, ts : 1..MaxTs, v : Writers]
+Vals == IF WithSuppression THEN 1..2 ELSE Writers
+Jobs == [k : {"upd"}, p : Paths, ts : 1..MaxTs, v : Vals]
           \cup (IF WithDeletes THEN [k : {"del"}, p : Paths, ts : 1..MaxTs, v : Writers] ELSE {})
 
 (* every path initially stored (leaf id = its rank, timestamp 0) or not                     *)
@@ -50,7 +56,8 @@ Init ==
           /\ leafval = [i \in Ids |-> [ts |-> 0, v |-> 0]]
           /\ nleaf = Cardinality(Paths)
     /\ job \in [Writers -> Jobs]
-    /\ \A w \in Writers : job[w].v = w
+    /\ WithSuppression \/ \A w \in Writers : job[w].v = w
+    /\ oldv = [w \in Writers |-> 0]
     /\ pc = [w \in Writers |-> "look"]
     /\ handle = [w \in Writers |-> 0]
     /\ created = [w \in Writers |-> FALSE]
@@ -62,13 +69,15 @@ Look(w) ==
        IF id = 0 THEN pc' = [pc EXCEPT ![w] = "add"] /\ UNCHANGED handle
        ELSE IF job[w].ts < leafval[id].ts THEN pc' = [pc EXCEPT ![w] = "done"] /\ UNCHANGED handle      \* stale: refused
        ELSE pc' = [pc EXCEPT ![w] = "write"] /\ handle' = [handle EXCEPT ![w] = id]
+    /\ oldv' = [oldv EXCEPT ![w] = IF tree[job[w].p] = 0 THEN 0 ELSE leafval[tree[job[w].p]].v]
     /\ UNCHANGED <<tree, leafval, nleaf, job, created, feed>>
 
 Write(w) ==
     /\ pc[w] = "write"
     /\ leafval' = [leafval EXCEPT ![handle[w]] = [ts |-> job[w].ts, v |-> job[w].v]]
-    /\ pc' = [pc EXCEPT ![w] = "feed"]
-    /\ UNCHANGED <<tree, nleaf, job, handle, created, feed>>
+    \* event-driven emulation: withheld when the value equals the one seen in Look
+    /\ pc' = [pc EXCEPT ![w] = IF WithSuppression /\ oldv[w] = job[w].v THEN "done" ELSE "feed"]
+    /\ UNCHANGED <<tree, nleaf, job, handle, created, feed, oldv>>
 
 Add(w) ==
     /\ pc[w] = "add"
@@ -81,13 +90,13 @@ Add(w) ==
             /\ UNCHANGED <<tree, nleaf>>
     /\ created' = [created EXCEPT ![w] = TRUE]
     /\ pc' = [pc EXCEPT ![w] = "fetch"]
-    /\ UNCHANGED <<job, handle, feed>>
+    /\ UNCHANGED <<job, handle, feed, oldv>>
 
 Fetch(w) ==
     /\ pc[w] = "fetch"
     /\ handle' = [handle EXCEPT ![w] = tree[job[w].p]]
     /\ pc' = [pc EXCEPT ![w] = IF tree[job[w].p] = 0 THEN "done" ELSE "feed"]       \* nothing found: nothing handed over
-    /\ UNCHANGED <<tree, leafval, nleaf, job, created, feed>>
+    /\ UNCHANGED <<tree, leafval, nleaf, job, created, feed, oldv>>
 
 Feed(w) ==
     /\ pc[w] = "feed"
@@ -96,19 +105,19 @@ Feed(w) ==
                 ELSE [k |-> "upd", p |-> job[w].p, ts |-> leafval[handle[w]].ts, v |-> leafval[handle[w]].v] IN
        feed' = Append(feed, e)
     /\ pc' = [pc EXCEPT ![w] = "done"]
-    /\ UNCHANGED <<tree, leafval, nleaf, job, handle, created>>
+    /\ UNCHANGED <<tree, leafval, nleaf, job, handle, created, oldv>>
 
 Remove(w) ==
     /\ pc[w] = "look" /\ job[w].k = "del"
     /\ IF tree[job[w].p] = 0 THEN pc' = [pc EXCEPT ![w] = "done"] /\ UNCHANGED tree
        ELSE tree' = [tree EXCEPT ![job[w].p] = 0] /\ pc' = [pc EXCEPT ![w] = "feeddel"]
-    /\ UNCHANGED <<leafval, nleaf, job, handle, created, feed>>
+    /\ UNCHANGED <<leafval, nleaf, job, handle, created, feed, oldv>>
 
 FeedDel(w) ==
     /\ pc[w] = "feeddel"
     /\ feed' = Append(feed, [k |-> "del", p |-> job[w].p])
     /\ pc' = [pc EXCEPT ![w] = "done"]
-    /\ UNCHANGED <<tree, leafval, nleaf, job, handle, created>>
+    /\ UNCHANGED <<tree, leafval, nleaf, job, handle, created, oldv>>
 
 Next == \E w \in Writers : Look(w) \/ Write(w) \/ Add(w) \/ Fetch(w) \/ Feed(w) \/ Remove(w) \/ FeedDel(w)
 Spec == Init /\ [][Next]_vars /\ WF_vars(Next)
@@ -128,7 +137,8 @@ FeedFaithful ==
         LET view == Replay([p \in Paths |-> [ts |-> 0, v |-> 0, here |-> FALSE]], feed) IN
         \A p \in Fed :
             /\ view[p].here = (tree[p] # 0)
-            /\ view[p].here => (view[p].ts = leafval[tree[p]].ts /\ view[p].v = leafval[tree[p]].v)
+            \* (a withheld update leaves the fed timestamp behind the stored one: values only, then)
+            /\ view[p].here => (view[p].v = leafval[tree[p]].v /\ (~WithSuppression => view[p].ts = leafval[tree[p]].ts))
 (* whatever changed has an entry: a path without entries holds what it held                *)
 NothingSilent ==
     Quiescent => \A p \in Paths \ Fed :
